@@ -1001,8 +1001,10 @@ func runDistrCase(ta *TestApp, seed uint64, idx int, rep *Report, profile string
 	amountMax := 3 + rng.Intn(24)
 	randCoins := func() sdk.Coins {
 		cs := sdk.NewCoins()
+		// with several denominations some inflows carry none of the first one (only "foreign" coins arrive in that block)
+		skipFirst := len(denoms) > 1 && rng.Chance(18)
 		for _, d := range denoms {
-			if d == 0 || rng.Chance(60) {
+			if (d == 0 && !skipFirst) || (d != 0 && rng.Chance(60)) {
 				var a *big.Int
 				switch rng.Intn(5) {
 				case 0:
